@@ -17,7 +17,7 @@ LEVEL_NOTE = ("Trusted: the insert-only alignment (bounded backtracking) accepts
 RULE = ("case = (a) generated tree, sizes tiny/8K/64K/256K, CRLF and multi-byte variants, or (b) 1-4 corpus files, some with "
         "UTF-8-preserving mutations; one edit run with 0-6 benign faults (short on n-th READ/WRITE, EINTR on n-th READ/WRITE/OPEN). "
         "Non-trivial = at least one token inserted; distinct = case index.")
-PROBES = ["short_write_retried", "short_read_retried", "eintr_retried", "multi_drain", "crlf_file", "corpus_world", "mutated_corpus",
+PROBES = ["bom_file", "short_write_retried", "short_read_retried", "eintr_retried", "multi_drain", "crlf_file", "corpus_world", "mutated_corpus",
           "large_file_256k", "existing_refs_present"]
 ASSUMPTIONS = ["no fault other than short counts / EINTR is injected here (strict equality otherwise)"]
 DEADLINE = {"quick": 200, "thorough": 3000}
@@ -66,6 +66,24 @@ def gen(rng):
             extra["proj/src/c%d_%s" % (i, rel.replace("/", "_"))] = {"t": "f", "mode": 0o644, "data": data}
         wm = {"cfg": {"source_dir": "./src", "structured": structured, "use_cache": rng.choice([False, None])},
               "files": {}, "extra": extra, "lock": None}
+    # unusual file heads: byte-order mark, shebang-like first line, leading blank lines, no trailing newline
+    for p in sorted(wm["files"]):
+        r = rng.random()
+        first = wm["files"][p][0]
+        if r < 0.15:
+            first[-1] = "\ufeff" + first[-1]
+            tags.add("bom_file")
+        elif r < 0.22:
+            first[-1] = "#!/usr/bin/env run-cargo-script\n" + first[-1]
+        elif r < 0.3:
+            first[-1] = "\n\n\r\n" + first[-1]
+        if rng.random() < 0.1:
+            last = wm["files"][p][-1]
+            last[-1] = last[-1].rstrip("\n") + " // no newline at end"
+    for p in sorted(wm["extra"]):
+        if p.startswith("proj/src/c") and rng.random() < 0.12:
+            wm["extra"][p]["data"] = b"\xef\xbb\xbf" + wm["extra"][p]["data"]
+            tags.add("bom_file")
     # bystanders that must not change
     wm["extra"]["proj/notes.txt"] = {"t": "f", "mode": 0o644, "data": b"info!(\"bystander\");\n"}
     wm["extra"]["proj/src/data.rsx"] = {"t": "f", "mode": 0o600, "data": b"warn!(\"other ext\");\n"}
